@@ -6,10 +6,10 @@ CONSTANTS Kinds = {"plain"}
           PlainMethKeys = {"G", "P", "GR"}
           MaxLen = 2
           MaxT = 2
-          ServerSet = {"schemes", "ports", "dup", "absbv", "relbv", "absbvx", "relbvx", "abshx", "abspx", "psschemes", "absschv", "schvdup"}
+          ServerSet = {"schemes", "ports", "dup", "absbv", "relbv", "absbvx", "relbvx", "abshx", "abspx", "psschemes", "absschv", "schvdup", "psrel", "psvar"}
           CoreLen = 2
           CoreT = 1
-          CoreServers = {"schemes", "ports", "dup", "absbv", "relbv", "absbvx", "relbvx", "abshx", "abspx", "psschemes", "absschv", "schvdup"}
+          CoreServers = {"schemes", "ports", "dup", "absbv", "relbv", "absbvx", "relbvx", "abshx", "abspx", "psschemes", "absschv", "schvdup", "psrel", "psvar"}
           Slice = 6
           Seed = 1
           DesignAll = TRUE
